@@ -76,6 +76,7 @@ class SimSlave:
         self.refused = 0
         self.push_hook = None                # push mode: called with every emitted event (webhooks)
         self.request_hook = None             # called with (method, path) when a request reaches the device
+        self.use_refs = False                # GET /ports shares equal "definitions" through JSON references ({"$ref": "#/<i>/definitions"})
         self.one_shot = []                   # [{'m','p','skip','fault'}]: the next matching request fails with that fault
         self.failed_requests = []            # [ms, method, path, body, fault]  requests hit by a one-shot fault (never reached the device)
         self.passwords = {}                  # *_password device attributes are write-only: kept here, never shown by GET /device
@@ -162,6 +163,21 @@ class SimSlave:
             return False
         p['value'] = value
         self.emit('value-change', {'id': pid, 'value': value, 'old_value': old})
+        return True
+
+    def burst(self, pid, n, start=0):
+        """n value changes of one port in a row (all distinct from their predecessor)"""
+        p = self.ports.get(pid)
+        if p is None or not p.get('enabled'):
+            return False
+        for i in range(n):
+            if p.get('type') == 'boolean':
+                v = not p.get('value')
+            else:
+                v = (start + i) % 97
+                if v == p.get('value'):
+                    v = 99
+            self.set_value(pid, v)
         return True
 
     def set_port_attr(self, pid, name, value):
@@ -507,12 +523,26 @@ class FakeAsyncHTTPClient:
         finally:
             if in_transit:
                 sim.inflight -= 1
+        if sim.use_refs and request.method == 'GET' and status == 200 and path.rstrip('/') == '/ports':
+            payload = with_refs(payload)
         data = b'' if payload is None and status == 204 else json.dumps(payload).encode()
         resp = HTTPResponse(request, status, headers=HTTPHeaders({'Content-Type': 'application/json'}),
                             buffer=io.BytesIO(data))
         if resp.error is not None and raise_error:
             raise resp.error
         return resp
+
+
+def with_refs(ports):
+    """the same list of ports with every "definitions" object that equals an earlier port's replaced by a JSON reference to it
+    (the form utils/json.loads(resolve_refs=True) resolves: {"$ref": "#/<index>/definitions"})"""
+    out = copy.deepcopy(ports)
+    for k, p in enumerate(out):
+        for i in range(k):
+            if isinstance(ports[i].get('definitions'), dict) and ports[i].get('definitions') == ports[k].get('definitions'):
+                p['definitions'] = {'$ref': '#/%d/definitions' % i}
+                break
+    return out
 
 
 def install(devices_module, sim, base_path=''):
